@@ -24,7 +24,8 @@ Voc == <<
   L(BStart("assemble", "foo  bar"), "", "  "), Other("##!> cmdlineunix"), Other("entry ##!> include f"),
   BEnd(""), L(BEnd(" end of block"), "\t\t", ""),
   [Flags("i") EXCEPT !.sp1 = ""], L(Flags("s"), "  ", "  "), Flags("x"),
-  [Prefix("a b") EXCEPT !.sp1 = "  "], L(Suffix("c|d"), "  ", " \t"),
+  [Prefix("a b") EXCEPT !.sp1 = "  "], L(Suffix("c|d"), "  ", " \t"), Prefix("(?:%3c|<)%s%d"), [Suffix("100%") EXCEPT !.sp1 = ""],
+  Flags("U"), Flags("i s"),
   Define("n", "v[0-9]+"), [L(Define("long-name_1", "{{n}}x"), "  ", "  ") EXCEPT !.sp1 = "", !.sp2 = "  ", !.sp3 = "\t"],
   Include("f", ""), [L(Include("f.ra", "a b"), " ", " ") EXCEPT !.sp1 = "", !.sp2 = "  ", !.sp3 = "  ", !.sp4 = ""],
   Include("g", "a  b   c \"\""),
